@@ -32,8 +32,13 @@ theorem canon_shape (u : Uri) (raw : Bytes) (h : u.authority = some raw) :
       N.ipp ++ ([cColon, cSlash, cSlash] ++ (hostOf raw ++
         ((match portOf raw with
           | some p => cColon :: natToDec p
-          | none => []) ++ u.path))) := by
+          | none => []) ++ builtPath u.path))) := by
   exact UriL.renderUri_canonUri u raw h
+
+/-- "the same path": a target written with a scheme never has an empty `path()`, and then nothing changes;
+    only a target in authority form (no scheme, empty path) gets "/" -/
+theorem built_path_same (p : Bytes) (h : p ≠ []) : builtPath p = p := by
+  simp [builtPath, h]
 
 /-- the fallback branch (builder failure) is taken only for targets without authority, which have no
     user-info to leak -/
